@@ -13,9 +13,14 @@
    The MaxSAT solver is universally quantified under its contract:
      solver_sound_c    : an answer is consistent and satisfies every hard clause given;
      solver_complete_c : `None` only if no assignment satisfies the hard clauses.
-   Optimality of the answer is NOT assumed anywhere (it only affects how fast the bounds move). *)
+   Optimality of the answer is NOT assumed anywhere (it only affects how fast the bounds move).
+   Annotated disjunctions (ModelAD.v): `ad_clauses groups`, `ad_wfb g w groups`; section 7 states the
+   bound theorems for programs with ADs without any counting hypothesis (the weight lemma and
+   total weight 1 with the exactly-one clauses present are C23_cube_weight_with_ads and
+   C23_total_weight_with_ads; the `_partial` theorems of section 6 are kept for reference). *)
 From Coq Require Import ZArith QArith List Bool.
-From PL.C23 Require Import ModelPartial ModelKBest ProofsPartial ProofsWMC ProofsKBest ProofsCube ProofsFinal.
+From PL.C23 Require Import ModelPartial ModelKBest ModelAD ProofsPartial ProofsWMC ProofsKBest ProofsCube ProofsFinal
+                           ProofsAD1 ProofsAD2 ProofsAD3.
 Import ListNotations.
 Open Scope Z_scope.
 
@@ -170,13 +175,11 @@ Theorem C23_explain_sum :
 Proof. exact explain_adfree. Qed.
 Print Assumptions C23_explain_sum.
 
-(* ---- 6. PARTIAL: programs WITH annotated disjunctions (constraint clauses `ads`).
-   Full statement wanted: C23_evaluate_sound / C23_explain_sum with `completion g ++ ads` and the
-   AD weights of ConstraintAD.update_weights, without the two hypotheses marked (H1), (H2).
-   Proved: everything else (encoding soundness/completeness, disjointness, entailment, coverage on
-   `None`, the loop).  Missing: (H1) the weight lemma and (H2) total weight 1 in the presence of
-   the AD clauses (needs "a cube is AD-saturated", which the smart-constraint indicator clauses
-   enforce; not formalised).  The tie exercises ADs on every run. *)
+(* ---- 6. Programs WITH annotated disjunctions, conditional form (kept): arbitrary constraint
+   clauses `ads`, under the two counting hypotheses (H1) weight lemma for ALL good cubes and (H2)
+   total weight 1.  NOTE: for real AD weights (p_i, 1) (H1) is false for cubes that mention a
+   group only negatively; section 7 below proves what actually holds — (H1) for the AD-saturated
+   cubes, which are the only ones k-best can produce — and removes both hypotheses. *)
 Theorem C23_evaluate_sound_with_ads_partial :
   forall solver (g : dag) (ads : list clause) (weighted : Z -> bool) (w : Z -> Q * Q) (q : Z),
     wf_dag g = true -> weights_on_atoms g weighted ->
@@ -209,6 +212,101 @@ Theorem C23_explain_sum_with_ads_partial :
       (v == sumQ (explain_probs w lb))%Q.
 Proof. exact explain_ads. Qed.
 Print Assumptions C23_explain_sum_with_ads_partial.
+
+(* ---- 7. Programs WITH annotated disjunctions, no counting hypothesis left.
+   `ad_clauses groups` (ModelAD.v) = the clauses ConstraintAD.as_clauses emits per group
+   (heads ++ [extra node]): pairwise exclusion + pick one, all added with force=False.
+   `ad_wfb g w groups` (a boolean, evaluated by the harness on every real program of the tie):
+   members are atom nodes with negative weight 1 and positive weights in [0,1] summing to 1
+   (ConstraintAD.update_weights), groups duplicate-free and pairwise disjoint, atoms outside the
+   groups have pos+neg = 1, derived nodes (1,1).
+   `ad_saturated groups c`: for every group, if the cube c mentions a member at all it contains a
+   positive member, and it contains at most one positive member. *)
+
+(* every k-best solution is AD-saturated: the smart-constraint indicator clauses enforce it *)
+Theorem C23_cubes_ad_saturated :
+  forall solver (g : dag) (groups : list (list Z)) (weighted : Z -> bool) (w : Z -> Q * Q) (q : Z),
+    weights_on_atoms g weighted -> ad_wfb g w groups = true -> solver_sound_c solver ->
+    forall b, reach solver g (ad_clauses groups) weighted w q b ->
+      Forall (ad_saturated groups) (b_cubes b).
+Proof. exact cubes_saturated_final. Qed.
+Print Assumptions C23_cubes_ad_saturated.
+
+(* (H1) the weight lemma with the exactly-one clauses present *)
+Theorem C23_cube_weight_with_ads :
+  forall (g : dag) (w : Z -> Q * Q) (groups : list (list Z)),
+    wf_dag g = true -> ad_wfb g w groups = true ->
+    forall c, cube_good g c -> ad_saturated groups c ->
+      (cube_weight w c
+       == wmc w (length g) (fun a => holds_all a (completion g ++ ad_clauses groups) && cube_sat a c))%Q.
+Proof. exact cube_weight_is_wmc_ads. Qed.
+Print Assumptions C23_cube_weight_with_ads.
+
+(* (H2) total weight of the models of completion + AD clauses is 1 *)
+Theorem C23_total_weight_with_ads :
+  forall (g : dag) (w : Z -> Q * Q) (groups : list (list Z)),
+    wf_dag g = true -> ad_wfb g w groups = true ->
+    (wmc w (length g) (fun a => holds_all a (completion g ++ ad_clauses groups)) == 1)%Q.
+Proof. exact total_weight_one_ads. Qed.
+Print Assumptions C23_total_weight_with_ads.
+
+Theorem C23_evaluate_sound_with_ads :
+  forall solver (g : dag) (groups : list (list Z)) (weighted : Z -> bool) (w : Z -> Q * Q) (q : Z),
+    wf_dag g = true -> weights_on_atoms g weighted -> ad_wfb g w groups = true ->
+    solver_sound_c solver -> solver_complete_c solver -> nonneg w ->
+    0 < Z.abs q <= Z.of_nat (length g) ->
+    forall (lower_only : bool) (conv : Q) (fuel : nat) (r : result) (lb ub : border),
+      evaluate solver (length g) weighted w lower_only conv fuel (completion g ++ ad_clauses groups) q = (r, lb, ub) ->
+      match r with
+      | Value v => (v == prob w (length g) (completion g ++ ad_clauses groups) q)%Q
+      | Interval lo hi | OutOfFuel lo hi =>
+          (lo <= prob w (length g) (completion g ++ ad_clauses groups) q /\
+           prob w (length g) (completion g ++ ad_clauses groups) q <= hi)%Q
+      end.
+Proof. exact evaluate_ads_full. Qed.
+Print Assumptions C23_evaluate_sound_with_ads.
+
+Theorem C23_explain_sum_with_ads :
+  forall solver (g : dag) (groups : list (list Z)) (weighted : Z -> bool) (w : Z -> Q * Q) (q : Z),
+    wf_dag g = true -> weights_on_atoms g weighted -> ad_wfb g w groups = true ->
+    solver_sound_c solver -> solver_complete_c solver -> nonneg w ->
+    0 < Z.abs q <= Z.of_nat (length g) ->
+    forall (conv : Q) (fuel : nat) (v : Q) (lb ub : border),
+      evaluate solver (length g) weighted w true conv fuel (completion g ++ ad_clauses groups) q = (Value v, lb, ub) ->
+      (sumQ (explain_probs w lb) == prob w (length g) (completion g ++ ad_clauses groups) q)%Q /\
+      (v == sumQ (explain_probs w lb))%Q.
+Proof. exact explain_ads_full. Qed.
+Print Assumptions C23_explain_sum_with_ads.
+
+(* ---- non-vacuity with an AD: 0.3::a; 0.5::b.  0.6::f.  q :- a, f.
+   nodes 1 = a, 2 = b, 3 = extra node of the AD (weight 1 - 0.8), 4 = f, 5 = q = conj(1,4) *)
+Definition g1 : dag := [NAtom; NAtom; NAtom; NAtom; NConj [1; 4]].
+Definition w1 : Z -> Q * Q := fun v =>
+  match v with 1 => (3 # 10, 1)%Q | 2 => (1 # 2, 1)%Q | 3 => (1 # 5, 1)%Q | 4 => (6 # 10, 4 # 10)%Q | _ => (1%Q, 1%Q) end.
+Definition wt1 : Z -> bool := fun v => match v with 1 | 2 | 3 | 4 => true | _ => false end.
+(* a true, b and the extra node certainly false (forced by the indicator clauses), f true, q true *)
+Definition sol1 : list Z := [1; 2; -3; -4; -5; -6; 7; 8; 9; 10; 11; 12; 13; 14].
+
+Example C23_ex_ad_wf :
+  wf_dag g1 = true /\ ad_wfb g1 w1 [[1; 2; 3]] = true /\
+  ad_clauses [[1; 2; 3]] = [Constr false [-1; -2]; Constr false [-1; -3]; Constr false [-2; -3]; Constr false [1; 2; 3]] /\
+  Qeq_bool (prob w1 5 (completion g1 ++ ad_clauses [[1; 2; 3]]) 5) (18 # 100) = true /\
+  Qeq_bool (wmc w1 5 (fun a => holds_all a (completion g1 ++ ad_clauses [[1; 2; 3]]))) 1 = true.
+Proof. vm_compute. repeat split; reflexivity. Qed.
+
+Example C23_ex_ad_border :
+  consistentb sol1 = true /\
+  all_sat sol1 (encode 5 true ((completion g1 ++ ad_clauses [[1; 2; 3]]) ++ [Constr true [5]])) = true /\
+  let b1 := border_update (scripted (Some sol1)) 5 wt1 w1 (border_init (completion g1 ++ ad_clauses [[1; 2; 3]]) 5) in
+  b_cubes b1 = [[1; -2; -3; 4]] /\ Qeq_bool (b_value b1) (18 # 100) = true.
+Proof. vm_compute. repeat split; reflexivity. Qed.
+
+(* why (H1) cannot hold for every good cube with AD weights: the cube [-a] has weight 1 but only
+   0.7 of the models extend it; it is not AD-saturated *)
+Example C23_ex_unsaturated_cube :
+  Qeq_bool (cube_weight w1 [-1]) 1 = true /\
+  Qeq_bool (wmc w1 5 (fun a => holds_all a (completion g1 ++ ad_clauses [[1; 2; 3]]) && cube_sat a [-1])) (7 # 10) = true.
+Proof. vm_compute. repeat split; reflexivity. Qed.
 
 (* ---- non-vacuity: q :- a, b. with 0.3::a, 0.4::b  (nodes 1, 2 atoms, 3 = conj) *)
 Definition g0 : dag := [NAtom; NAtom; NConj [1; 2]].
